@@ -17,6 +17,8 @@ def kindOfStr : String → Except String Kind
   | "initOk" => pure .initOk | "initBad" => pure .initBad | "request" => pure .request
   | "requestChatty" => pure .request   -- a request whose handler emits notifications first: same envelope class
   | "notifInitialized" => pure .notifInitialized | "notifOther" => pure .notifOther
+  -- a message with method "initialize" but no id (or id null) is a notification like any other: it opens no session
+  | "notifNamedInitialize" => pure .notifOther | "notifNamedInitializeNullId" => pure .notifOther
   | "response" => pure .response | "responseEmpty" => pure .responseEmpty | "invalid" => pure .invalid
   | s => throw s!"kind {s}"
 
